@@ -181,7 +181,7 @@ func c09Setup() (*c09Ctx, func()) {
 func TestC09(t *testing.T) {
 	rep := NewReport("C09")
 	defer rep.Finish(t)
-	rep.Rule = "every terminal state of spec/Totality.tla is one document: a subset of the optional parts of a Response+Assertion, SOAP/ArtifactResponse envelope, LogoutResponse, AuthnRequest, SP or IdP metadata document (all present values valid, IdP signature re-applied with the harness key after removing parts, assertion optionally encrypted to the SP), or a framing class, or a resolver behaviour; it is built concretely, run through the real consuming API inside a panic barrier and a 10 s watchdog (deep documents in a child process, deflate bombs serially under a heap-growth bound) and judged by the statement's oracle; non-trivial = every vector (class Total: must return a result or an error; MustReject: input inflating past 10 MB)"
+	rep.Rule = "every terminal state of spec/Totality.tla is one document: a subset of the optional parts of a Response+Assertion, SOAP/ArtifactResponse envelope, LogoutResponse, AuthnRequest, SP or IdP metadata document (all present values valid, IdP signature re-applied with the harness key after removing parts, assertion optionally encrypted to the SP), or a framing class, or a resolver behaviour, or a trust configuration of the SP (metadata certificates: one, several, none, an unparsable one; pinned certificate; pinned SHA-256 / SHA-512 fingerprint) crossed with the content of the KeyInfo of every signature in the message (11 classes, the signature value staying the trusted signer's), or a nesting shape (chain, ladder, wide-then-deep, sibling-after) x depth class (999 / 1000 / 1001 / 5000 / 400000 levels; thorough also 12000-20000 and 1000000) of EntitiesDescriptor elements; it is built concretely, run through the real consuming API inside a panic barrier and a 10 s watchdog (documents deep enough to exhaust the stack in a child process, deflate bombs serially under a heap-growth bound) and judged by the statement's oracle; non-trivial = every vector (class Total: must return a result or an error; MustReject: input inflating past 10 MB)"
 	vs := c09Load(t, rep)
 	if len(vs) == 0 {
 		rep.Break("no vectors")
@@ -298,7 +298,7 @@ func TestC09(t *testing.T) {
 	rep.Extra["accepted_by_family"] = st.okByFam
 	rep.Note("documents executed: %d vectors, %d concrete executions; %d in a child process, %d serially under the heap bound", len(vs), st.variants, len(deep), len(serial))
 	rep.Assume("raw coverage-guided byte fuzzing is outside this technique (DESIGN.md section 11): the byte string is represented by framing classes with several concrete representatives each, the parsers' internals (encoding/xml, etree, xml-roundtrip-validator) are not explored")
-	rep.Assume("configuration is not input: the ServiceProvider has IDPMetadata, key and certificate set; the IdentityProvider has a key, a certificate, a session provider and a service provider registry")
+	rep.Assume("configuration is not input: the ServiceProvider has IDPMetadata, key and certificate set and trusts the IdP in one of the documented ways (metadata certificates, or IDPCertificate alone, or IDPCertificateFingerprint together with IDPCertificateFingerprintAlgorithm; mixed or partial settings are not covered); the IdentityProvider has a key, a certificate, a session provider and a service provider registry")
 }
 
 // ---------------------------------------------------------------------------
@@ -331,7 +331,7 @@ func c09Child(v *c09Vec) ([]c09Obs, error) {
 	case <-time.After(90 * time.Second):
 		cmd.Process.Kill()
 		<-done
-		return []c09Obs{{Variant: "deep", Hang: true}}, nil
+		return []c09Obs{{Variant: c09ChildVariant(v), Hang: true}}, nil
 	}
 	if ob, err := os.ReadFile(out); err == nil {
 		var obs []c09Obs
@@ -354,11 +354,20 @@ func c09Child(v *c09Vec) ([]c09Obs, error) {
 	if werr == nil || first == "" {
 		return nil, fmt.Errorf("child wrote no observation (%v): %s", werr, tailStr(msg, 400))
 	}
-	o := c09Obs{Variant: "deep", Panic: first + "\n" + c09HeadStr(msg, 3000), Fatal: true, Frames: c09Frames(msg)}
+	o := c09Obs{Variant: c09ChildVariant(v), Panic: first + "\n" + c09HeadStr(msg, 3000), Fatal: true, Frames: c09Frames(msg)}
 	if len(o.Frames) > 0 {
 		o.PanicAt = o.Frames[0]
 	}
 	return []c09Obs{o}, nil
+}
+
+// c09ChildVariant is the name of the (single) variant a child process runs, for an observation
+// that the child could not write itself.
+func c09ChildVariant(v *c09Vec) string {
+	if v.In.Fam == "nest" {
+		return fmt.Sprintf("%s-%d", v.In.Shape, c09NestLevels(v.In.Depth, newRand(c09CaseKey(v)))[0])
+	}
+	return "deep"
 }
 
 func c09HeadStr(s string, n int) string {
